@@ -368,7 +368,7 @@ pub fn run(args: &Args, rep: &Arc<Report>) {
     rep.sample(json!({"toml_roundtrip": cfgs[n / 2]}));
     // (b) omission subsets
     let values = nondefault_values();
-    let masks: Vec<u32> = if thorough { (0..(1u32 << 19)).collect() } else { (0..(1u32 << 19)).filter(|m| m.count_ones() <= 3 || (!m & 0x7FFFF).count_ones() <= 2).collect() };
+    let masks: Vec<u32> = if thorough { (0..(1u32 << 19)).collect() } else { (0..(1u32 << 19)).filter(|m| m.count_ones() <= 4 || (!m & 0x7FFFF).count_ones() <= 3).collect() };
     // whole-section omissions
     let section_masks: Vec<u32> = (0..SECTIONS.len())
         .map(|s| (0..19).filter(|&i| section_of(i) == Some(s) || (s == 1 && section_of(i).map_or(false, |x| x >= 1)) || (s == 2 && section_of(i) == Some(3)) || (s == 4 && section_of(i) == Some(5))).fold(0u32, |m, i| m | (1 << i)))
@@ -408,6 +408,6 @@ pub fn run(args: &Args, rep: &Arc<Report>) {
     rep.extra("omission_documents", json!(wn));
     rep.set_rule(&format!(
         "(a) toml::from_str(toml::to_string(c)) renders equal to c, and verify() agrees before/after and with the documented ranges, for every single- and two-field deviation of the C07 configuration set that TOML can carry ({n} values); (b) documents written by the harness from two all-non-default values with {} of the 2^19 subsets of the 19 leaf keys omitted (plus whole-section omissions, with and without the emptied section headers): parsed value == value with exactly the omitted leaves replaced by the documented defaults; (c) type=\"ApproxEnt\" without partitions -> 16; non-trivial = a round trip or a document with at least one omitted leaf that agreed",
-        if thorough { "ALL".to_string() } else { "every subset of size <= 3 or of co-size <= 2".to_string() }
+        if thorough { "ALL".to_string() } else { "every subset of size <= 4 or of co-size <= 3".to_string() }
     ));
 }
